@@ -15,8 +15,8 @@ Proof. repeat split; reflexivity. Qed.
 (* (A) time: whatever the peers answer (or not), a lookup is over after at most MAX_ITERATIONS
    batches, i.e. within MAX_ITERATIONS x D when every single request is over within D
    (D = dial + send + request timeout); the clock is a ghost: it does not change the result *)
-Theorem C20_lookup_time_bound : forall keyof reply self selfs_marked selfs_all target count dur D init,
-  (forall p, dur p <= D) ->
+Theorem C20_lookup_time_bound : forall keyof reply self selfs_marked selfs_all target count dur D,
+  (forall p, dur p <= D) -> forall init,
   snd (lookup_t keyof reply self selfs_marked selfs_all target count dur init) <= lookup_bound D.
 Proof. exact lookup_t_bound. Qed.
 
